@@ -224,8 +224,17 @@ func (s *Session) runDefers(st *State, fr *Frame, i int, k func(st *State)) {
 }
 
 // step executes a straight-line instruction. Returns true if the path ends.
+func (s *Session) siteOf(st *State, in ssa.Instruction) string {
+	id := fmt.Sprintf("%p", in)
+	for f := st.fr; f != nil && f.inline; f = f.parent {
+		id += "<" + f.site
+	}
+	return id
+}
+
 func (s *Session) step(st *State, in ssa.Instruction) bool {
 	fr := st.fr
+	s.curSite = s.siteOf(st, in)
 	switch x := in.(type) {
 	case *ssa.Alloc:
 		t := x.Type().Underlying().(*types.Pointer).Elem()
